@@ -232,7 +232,7 @@ class Recorder:
             if ok:
                 self.ev.append({"a": "Json", "who": who + ".to_json", "cls": "dict" if isinstance(j, dict) else _cls(j)})
 
-    def filemeta(self, who, md):
+    def filemeta(self, who, md, ri=1):
         fdir, fpn = proj_file(getattr(md, "file_path", None), self.roots)
         fn, ext = getattr(md, "filename", None), getattr(md, "file_extension", None)
         strs_ok = True
@@ -241,7 +241,7 @@ class Recorder:
             for x in vals:
                 if isinstance(x, str) and not _utf8(x):
                     strs_ok = False
-        self.ev.append({"a": "FileMeta", "who": who, "mtype": type(md).__name__, "strsutf8": strs_ok,
+        self.ev.append({"a": "FileMeta", "who": who, "mtype": type(md).__name__, "strsutf8": strs_ok, "ri": ri,
                         "fnk": _cls(fn), "fn": _pieces(fn), "extk": _cls(ext), "ext": _pieces(ext),
                         "dir": proj_dir(getattr(md, "folder_path", None), self.roots), "fdir": fdir, "fpn": fpn})
 
@@ -275,7 +275,7 @@ class Recorder:
                 self.table(f"{who}.table[{n}]", t)
         ok, md = self.call(who + ".get_metadata", r.get_metadata)
         if ok:
-            self.filemeta(who + ".get_metadata", md)
+            self.filemeta(who + ".get_metadata", md, ri=k + 1)
             if self.props:
                 self.properties(who + ".get_metadata", md)
             if self.units is not None:
@@ -459,7 +459,8 @@ def run_job(job):
         roots = sorted([("cwd", cwd), ("nx", NX_ROOT)], key=lambda x: -len(x[1]))
         hdr = {"fmt": job.get("fmt") or "", "path": {k: sp[k] for k in ("root", "dirs", "stem", "exts", "fexists", "dexists")},
                "mutant": job.get("mut") is not None, "dcwrapper": bool(job.get("dcwrapper")),
-               "member": job.get("member") or {"k": "none", "archseg": "", "dirs": [], "stem": "", "exts": []}}
+               "member": job.get("member") or {"k": "none", "archseg": "", "dirs": [], "stem": "", "exts": []},
+               "members": job.get("members") or []}
         out["hdr"] = hdr
         out["parg"] = parg
         old = signal.signal(signal.SIGALRM, _alarm)
@@ -938,6 +939,12 @@ def degenerate_input(name):
     if name == "mbox-onemessage-nobody":
         return "mbox", (b"From a@example.invalid Mon Jan  1 00:00:00 2024\nFrom: a@example.invalid\nTo: b@example.invalid\n"
                         b"Subject: zq0001x\nDate: Mon, 1 Jan 2024 00:00:00 +0000\n\n\n")
+    if name in ("mbox-two", "mbox-three"):
+        n = 2 if name == "mbox-two" else 3
+        return "mbox", b"".join(
+            b"From a%d@example.invalid Mon Jan  1 00:00:0%d 2024\nFrom: a%d@example.invalid\nTo: b@example.invalid\n"
+            b"Subject: zq000%dx\nDate: Mon, 1 Jan 2024 00:00:0%d +0000\nMessage-ID: <%d@example.invalid>\n\nbody zq001%dx\n\n"
+            % (i, i, i, i, i, i, i) for i in range(1, n + 1))
     if name in ("xlsx-emptysheet", "ods-emptysheet"):
         f = name.split("-")[0]
         return f, render({"kind": "book", "props": {}, "sheets": [{"name": "zq0001x", "name_id": 1, "rows": [], "images": []}]}, f)
@@ -1046,7 +1053,33 @@ def spell_member(am, rng):
 
 
 def archive_bytes(kind, member_name, data=b"zq0001x zq0002x\n"):
-    """One-member archive; the member is stored under exactly the given name (absolute names are kept)."""
+    """Archive with one member (or, for a list of names, several); every member is stored under exactly the given
+    name (absolute names are kept)."""
+    if isinstance(member_name, (list, tuple)):
+        names = list(member_name)
+        if kind == "zip":
+            import zipfile
+            buf = io.BytesIO()
+            with zipfile.ZipFile(buf, "w") as z:
+                for n in names:
+                    zi = zipfile.ZipInfo("placeholder")
+                    zi.filename = n
+                    zi.compress_type = zipfile.ZIP_DEFLATED
+                    z.writestr(zi, data)
+            return buf.getvalue()
+        if kind in ("tar", "tgz"):
+            import tarfile
+            buf = io.BytesIO()
+            with tarfile.open(fileobj=buf, mode="w:gz" if kind == "tgz" else "w", format=tarfile.PAX_FORMAT) as t:
+                for n in names:
+                    ti = tarfile.TarInfo("placeholder")
+                    ti.name = n
+                    ti.size = len(data)
+                    t.addfile(ti, io.BytesIO(data))
+            return buf.getvalue()
+        from .c10_sevenz import write_7z
+        out = write_7z([{"name": n, "kind": "file", "data": data} for n in names], [list(range(len(names)))])
+        return out[0] if isinstance(out, tuple) else out
     if kind == "zip":
         import zipfile
         buf = io.BytesIO()
@@ -1095,3 +1128,27 @@ def struct_doc(fmt, items, pics, seed=0):
     if pics:
         doc["images"] = rich_doc(fmt, seed).get("images") or []
     return doc
+
+
+# ----------------------------------------------------------------------------- picture parts with odd file extensions
+PIC_EXT = {"svg": ".svg", "webp": ".webp", "jp2": ".jp2", "none": "", "upper": ".PNG", "unknown": ".xyz9", "dotted": ".v2.tiff"}
+
+
+def rename_images(doc, kind):
+    """The pictures of a docrun document get part names with an extension outside the extractors' tables."""
+    for i in doc_images(doc):
+        for key in ("target", "part", "href"):
+            if i.get(key):
+                head, _, last = i[key].rpartition("/")
+                stem = last.split(".")[0]
+                i[key] = (head + "/" if head else "") + stem + PIC_EXT[kind]
+    return doc
+
+
+def epub_with_images(doc, kind, seed=0):
+    """EPUB (shared writer) with two pictures in the manifest, named as the abstract case says."""
+    from .writers.images import make
+    from .writers.web import write_epub
+    imgs = [{"part": "OEBPS/img/a" + PIC_EXT[kind], "href": "img/a" + PIC_EXT[kind], "data": make("png", 4, 3, seed), "media": "image/png"},
+            {"part": "OEBPS/img/b" + PIC_EXT[kind], "href": "img/b" + PIC_EXT[kind], "data": make("jpeg", 5, 4, seed), "media": "application/octet-stream"}]
+    return write_epub({"chapters": [doc], "props": doc.get("props"), "images": imgs})
